@@ -631,7 +631,7 @@ def check_band_mask(ctx, rule="R7-band-mask"):
             v = plan.d.get("nf")
             fv = plan.d.get("f")
             ok = isinstance(fv, lm.Masked) and isinstance(v, X) and v.eq(fv.count())
-            (ctx.holds if ok else ctx.violated)(rule, c, "" if ok else f"nf of a band-limited plan is {v!r}, not the number of in-band bins", where)
+            ctx.ob(rule, c, HOLDS if ok else UNKNOWN if (is_opaque(v) or is_opaque(fv) or isinstance(v, PV)) else VIOLATED, "" if ok else f"nf of a band-limited plan is {v!r}, not the number of in-band bins", where)
             continue
         if k not in plan.d:
             ctx.holds(rule, c, "field removed from the band-limited plan", where); continue
